@@ -1,0 +1,11 @@
+//go:build verif
+
+package executor
+
+import "sync/atomic"
+
+// VerifHaveWALWriter reports whether the SyncWAL goroutine has announced itself, i.e. whether
+// RequestFlush hands flushes to it instead of flushing inline. Exported for the verification
+// harness only (build tag verif): the harness starts SyncWAL itself with short timers and must not
+// issue writes before the goroutine runs.
+func VerifHaveWALWriter() bool { return atomic.LoadInt32(&haveWALWriter) == 1 }
